@@ -315,9 +315,6 @@ HttpStateData::reusableReply(HttpStateData::ReuseDecision &decision)
 #define REFRESH_OVERRIDE(flag) 0
 #endif
 
-    if (EBIT_TEST(entry->flags, RELEASE_REQUEST))
-        return decision.make(ReuseDecision::doNotCacheButShare, "the entry has been released");
-
     // RFC 9111 section 4:
     // "When more than one suitable response is stored,
     //  a cache MUST use the most recent one
@@ -545,6 +542,12 @@ HttpStateData::reusableReply(HttpStateData::ReuseDecision &decision)
         decision.make(ReuseDecision::reuseNot, "unknown status code");
         break;
     }
+
+    // A released entry cannot be cached, but its response may still feed the
+    // clients that already wait for it, unless the response itself forbids
+    // sharing (the reuseNot answers above and below this point).
+    if (EBIT_TEST(entry->flags, RELEASE_REQUEST) && decision.answer != ReuseDecision::reuseNot)
+        decision.make(ReuseDecision::doNotCacheButShare, "the entry has been released");
 
     return decision.answer;
 }
